@@ -254,25 +254,24 @@ class DelAttrMethod(MethodDescriptor):
 
             attr_spec = self.__spec_class__.attrs.get(attr)
 
-            if (
-                force
-                or not attr_spec
-                or attr_spec.default is MISSING
-                or attr_spec.is_masked
-            ):
+            # Look up the default exactly as the constructor does (default
+            # factories and overrides in plain subclasses included).
+            default = MISSING
+            if attr_spec and not force and not attr_spec.is_masked:
+                default = attr_spec.lookup_default_value(type(self))
+
+            if default is MISSING:
                 self.__delattr__.__raw__(self, attr)
                 if not skip_invalidation:
                     invalidate_attrs(self, attr)
                 return None
 
-            return mutate_attr(
-                obj=self,
-                attr=attr,
-                value=protect_via_deepcopy(attr_spec.default),  # handle default factory
-                inplace=True,
-                force=True,
-                skip_invalidation=skip_invalidation,
+            # Restore the default through `__setattr__` so that it is prepared
+            # in the same way as during construction.
+            self.__setattr__(
+                attr, default, force=True, skip_invalidation=skip_invalidation
             )
+            return None
 
         # Add reference to original __delattr__
         __delattr__.__raw__ = getattr(
